@@ -49,6 +49,9 @@ def c11_more(which):
         jobs.append(Job("c11_more.cpp", "h_packet_c11", defs={"GROUP": 6}, unwind=20, in_max=64, mem_gb=2, sym="all member values, which setter, written value"))
         jobs.append(Job("c11_more.cpp", "h_payloadtype_c11", defs={"GROUP": 6}, unwind=20, in_max=32, mem_gb=2, sym="packed type value, written value"))
     else:
+        for pmt in (1, 2, 3, 0xFF):
+            jobs.append(Job("c11_more.cpp", "h_packet_raw_c12", defs={"GROUP": 6, "PMT": pmt}, unwind=40, in_max=64, mem_gb=3,
+                            sym="all Packet member values (ids in both write orders), payload type byte, payload bytes", outside="payload lengths other than 4"))
         jobs.append(Job("c11_more.cpp", "h_sizes1", defs={"GROUP": 1}, sym="none"))
         jobs.append(Job("c11_more.cpp", "h_sizes2", defs={"GROUP": 2}, sym="none"))
     return jobs
@@ -69,6 +72,8 @@ def c12_jobs():
     j.append(Job("c11_can.cpp", "h_can_sizes", sym="none"))
     # reserved pad bytes written by the variable-length builders (status payloads), incl. re-set objects
     j += [x for x in c13_jobs() if x.entry == "h_build" and x.defs.get("CLS") in (6, 7) and x.tier == "quick"]
+    # what reaches the wire through the encoder (frame header bytes against the frame model; C12-labelled assertions in enc.cpp)
+    j += [x for x in enc_jobs(["h_enc_model"], quick_shapes=[enc_shape([8]), enc_shape([8, 8], [1, 3]), enc_shape([33], maxb=40)], thorough_shapes=[])]
     return j + c11_more(12)
 
 
